@@ -93,6 +93,12 @@ def run_check(prop, tier, seed, replay=None):
                 broken.append({"kind": "proof-obligation", "name": "Print Assumptions", "detail": aout[-500:]})
                 axioms = {}
             discharged = len([t for t in theorems if t in axioms])
+            if tier == "thorough":
+                chk = C.coqchk(prop.module)
+                cov["coqchk"] = chk
+                C.log("[%s] coqchk: ok=%s axioms=%s (%.0fs)" % (pid, chk["ok"], chk["axioms"], chk["seconds"]))
+                if not chk["ok"] or chk["axioms"]:
+                    broken.append({"kind": "proof-obligation", "name": "coqchk " + prop.module, "detail": chk["summary"][-800:]})
         bad = C.hygiene()
         if bad:
             broken.append({"kind": "hygiene", "name": "forbidden construct in the development", "detail": bad[:10]})
@@ -118,13 +124,15 @@ def run_check(prop, tier, seed, replay=None):
             V.violation("unproved:" + str(b["name"]),
                         "%s %s no longer checks and no failing input was found" % (b["kind"], b["name"]),
                         {"broken": broken[:5], "seed": seed, "tier": tier}, found_input=False)
+        keep = {k: v for k, v in cov.items() if k == "coqchk"}
         cov = prop.coverage(ctx, obs) or {}
+        cov.update(keep)
         cov.update({
             "obligations": len(theorems),
             "discharged": discharged,
             "theorems": theorems,
             "axioms_per_theorem": axioms,
-            "checker_cmd": "make -C coq %s (coqc 8.16.1, full .vo) ; coqc Assume.v (Print Assumptions) ; coqc cases.v (vm_compute of the model on the harness's cases)" % " ".join(prop.coq_targets),
+            "checker_cmd": "make -C coq %s (coqc 8.16.1, full .vo) ; coqc Assume.v (Print Assumptions) ; coqc cases.v (vm_compute of the model on the harness's cases)%s" % (" ".join(prop.coq_targets), " ; coqchk -silent -o IP.%s" % prop.module if tier == "thorough" else ""),
             "trusted_base": C.KERNEL_TB + list(prop.assumptions),
             "traces_validated_against_impl": n_model_cases,
             "model_eval": minfo,
